@@ -115,7 +115,7 @@ def run(tier, seed):
 
     # ---- 1. symbolic theorems at the real widths (Apalache) and 2. TLC, small word, exhaustive
     A64 = "TokenBucket_A64"
-    small = {"M": 64 if q else 128, "NM": 8, "KMS": 3}
+    small = {"M": 64 if q else 96, "NM": 8, "KMS": 3}
     def tlc_small():
         out = []
         for name, init, nxt, invs in (("C21_upd", "InitEnum", "Next", ["Exact", "SkipUnchanged"]),
